@@ -28,6 +28,13 @@ def many_operands(case, info):
     return len(re.findall(r"[A-Za-z][A-Za-z0-9]*\(", case["assignment"].split("=", 1)[1])) > 8
 
 
+def wide_sparse_search(case, info):
+    """F-M: at least 8 distinct index names, and compressed levels or index lists / level orders that are not all
+    increasing in one global order (the generator marks all-dense, globally ordered problems): the search for a legal iteration order (or for the proof that there is none) enumerates the interleavings of
+    all indexes."""
+    return len(set(case.get("indexes", []))) >= 8 and not case.get("globally_ordered")
+
+
 def oob_on_dense_level(case, info):
     """F-F: the out-of-range coordinate lies on an axis stored in a dense level."""
     return bool(info.get("dense_level"))
@@ -44,4 +51,5 @@ SIGNATURES = {
     "oob_on_dense_level": oob_on_dense_level,
     "reserved_name": reserved_name,
     "many_operands": many_operands,
+    "wide_sparse_search": wide_sparse_search,
 }
